@@ -30,6 +30,8 @@ type c08Sess struct {
 	stage  int // last honest message answered
 	xb     int
 	rounds int
+	// devmod bookkeeping: a DeviceServiceInfo without devmod was answered before devmod was complete / devmod is complete
+	dmOpen, dmDone bool
 }
 
 type c08Gen struct {
@@ -177,7 +179,7 @@ func (g *c08Gen) next(k int) (rawReq, bool) {
 		case 66, 68:
 			q := g.base(k, 68)
 			q.EncS, q.EncX = k, s.xb
-			q.Dm = s.stage == 66
+			q.Dm = !s.dmDone
 			if s.rounds >= 3 || (s.stage == 68 && g.r.IntN(4) == 0) {
 				q = g.base(k, 70)
 				q.EncS, q.EncX = k, s.xb
@@ -431,6 +433,26 @@ func c08Sequence(x *runCtx, r *rand.Rand, backend string, k lab.Kind, reuse bool
 				q.Dev, q.NonceOf, q.Signer = rec.Dev, rec.NonceOf, rec.Signer
 			}
 		}
+		// TO0.OwnerSign names a device by index; the client builds it for device 1 when the index is outside the lab's
+		// devices. The request is described to the model as what is sent: device 1, signed by its owner exactly when signer
+		// and device index agreed.
+		if q.Typ == 22 && (q.Dev < 1 || q.Dev > g.ndev) {
+			same := q.Signer == q.Dev
+			q.Dev = 1
+			switch {
+			case same:
+				q.Signer = 1
+			case q.Signer == 1:
+				q.Signer = 2
+			}
+		}
+		// A second DeviceServiceInfo without devmod while devmod is still incomplete is outside the model's store: the SQLite
+		// store reads a module list that was never set back as an empty one, and devmod.go then validates the (empty) devmod
+		// and fails the session, where a store that keeps "never set" apart answers 69 again (DESIGN 10.4). No honest device
+		// sends that, and no listed effect is involved either way; on SQLite such a request carries the devmod instead.
+		if k := sessIdx(q.Tok); backend == "sqlite" && q.Typ == 68 && !q.Dm && k >= 0 && k < len(g.ss) && g.ss[k].dmOpen && !g.ss[k].dmDone {
+			q.Dm = true
+		}
 		// what the harness knows before sending
 		tk := sessIdx(q.Tok)
 		isStart := q.Typ == 10 || q.Typ == 20 || q.Typ == 30 || q.Typ == 60
@@ -470,6 +492,13 @@ func c08Sequence(x *runCtx, r *rand.Rand, backend string, k lab.Kind, reuse bool
 				if s.stage == 66 || s.stage == 68 {
 					s.stage = 68
 					s.rounds++
+				}
+				if res.typ == 69 {
+					if q.Dm {
+						s.dmDone = true
+					} else if !s.dmDone {
+						s.dmOpen = true
+					}
 				}
 			}
 		}
